@@ -1,2 +1,8 @@
 import OlVerif.Props.C05
+#print axioms OlVerif.C05.lower_correct_module
+#print axioms OlVerif.C05.lower_correct_function
+#print axioms OlVerif.C05.block_inv
+#print axioms OlVerif.C05.signal_has_cause
 #print axioms OlVerif.C05.live_idem
+#print axioms OlVerif.C05.run_source_sound
+#print axioms OlVerif.C05.run_target_sound
